@@ -77,6 +77,11 @@ def gen_table(rng, c, many=False):
             kept.append(mid)
         else:
             kept.append(mid)
+        if cls in ("missing", "dup") and rng.random() < 0.35:
+            # a mutation that is dropped entirely is dropped whatever its rows contain - also a row whose major copy
+            # number is below the minor one (which is an error only in a mutation that is kept)
+            per[int(rng.integers(0, len(per)))].update(major_cn=1, minor_cn=2)
+            classes[str(mid)] = cls + "+inconsistent_cn"
         rows.extend(per)
     return rows, samples, kept, classes
 
@@ -247,7 +252,9 @@ def run(ctx):
                 "with or without a final newline, optional "
                 "columns present or absent, unused annotation columns (partly blank, populated, entirely blank) in two of five tables, with and without a cluster file; 5 random row permutations each; "
                 "distinct = (set of classes present, separator, optional columns, clustering, #samples)")
-    ctx.assumptions = ["excluded by the property: a sample keeping no usable row; extra rows in one sample offsetting "
+    ctx.assumptions = ["a row with major < minor copy number is an error in a kept mutation; in a mutation that is dropped "
+                       "entirely (missing in a sample, duplicated) it is dropped with the mutation",
+                       "excluded by the property: a sample keeping no usable row; extra rows in one sample offsetting "
                        "missing rows in another (generators never produce them)",
                        "a usable row plus an extra row with zero major CN counts as 'exactly one row with a positive major "
                        "copy number' (the statement's first clause) and is kept"]
